@@ -27,12 +27,12 @@ ALIGN_POOL = [1, 2, 2, 3, 4, 4, 7, 8, 8, 16, 32, 64, 100, 256]
 ALIGN_BIG = [1024, 4096, 32767, 32768, 65535]
 
 
-def sym_name(tok):
-    """driver symbol token `p.p/leaf` -> assembler symbol name"""
+def sym_name(tok, sep="_"):
+    """driver symbol token `p.p/leaf` -> assembler symbol name (`sep` = `.` under DOTTEDSTRUCTS ON)"""
     path, leaf = tok.split("/")
     parts = ["N" + p for p in path.split(".") if p != ""]
     parts.append("LEN" if leaf == "LEN" else "N" + leaf)
-    return "_".join(parts)
+    return sep.join(parts)
 
 
 class Gen:
@@ -54,6 +54,10 @@ class Gen:
         self.orgphase = rng.random() < 0.12
         self.n = rng.randrange(6, nmax)
         self.kinds = {}
+        # the target comes from the command line (`asl -cpu <name>`), the source has no leading CPU statement: the initial
+        # CODE segment has then never been entered through SetNSeg - only WriteCode's `PCsUsed[ActPC] = True` marks it
+        self.nocpu = rng.random() < 0.3
+        self.hops = 0
 
     def new_id(self):
         self.next_id += 1
@@ -74,6 +78,75 @@ class Gen:
     def maybe_label(self, p=0.45):
         return self.new_id() if self.rng.random() < p else None
 
+    def setter(self):
+        """a counter-setting statement (ORG, RORG, ALIGN, PHASE) that places nothing"""
+        rng = self.rng
+        lim = self.lim()
+        pc, ex = self.approx()
+        lab = self.maybe_label(0.3)
+        w = rng.random()
+        off = self.off.get(self.seg, 0)
+        if w < 0.45 and (off == 0 or self.orgphase):
+            hi = max(1, (lim + 1) // 2)
+            v = rng.choice([1, hi // 2, hi, rng.randrange(1, hi), rng.randrange(1, hi)])
+            kind = "org-under-phase" if off != 0 else ("org-same" if v == ex else "org")
+            self.add(kind, "org:%d" % v, "org %d" % v, lab)
+            self.pc[self.seg] = v
+        elif w < 0.65:
+            d = rng.choice([1, 2, 4, 8, 16])
+            self.add("rorg", "rorg:%d" % d, "rorg %d" % d, lab)
+            self.pc[self.seg] = pc + d
+        elif w < 0.8:
+            n = rng.choice(ALIGN_POOL)
+            self.add("align", "align:%d:-" % n, "align %d" % n, lab)
+            if ex >= 0:
+                self.pc[self.seg] = pc + (-ex) % n
+        else:
+            hi = max(2, (lim + 1) // 2)
+            v = rng.choice([1, hi, rng.randrange(0, hi)])
+            self.add("phase", "phase:%d" % v, "phase %d" % v, lab)
+            self.pdepth[self.seg] = self.pdepth.get(self.seg, 0) + 1
+            self.off.setdefault(("stk", self.seg), []).append(self.off.get(self.seg, 0))
+            self.off[self.seg] = v - pc
+
+    def hop(self):
+        """leave the active segment and come back (SEGMENT <other> … SEGMENT <back>, or a CPU statement) with nothing placed in
+        it since the last counter-setting statement, then place labelled code: SetNSeg must not re-initialise the counter"""
+        rng = self.rng
+        t = TARGETS[self.cpu]
+        self.hops += 1
+        back = self.seg
+        if rng.random() < 0.65:
+            others = [x for x in t["segs"] if x != back] or [1]
+            o = rng.choice(others)
+            self.add("segment", "seg:%d" % o, "segment %s" % ALL_SEG_NAMES[o], None)
+            self.seg = o
+            w = rng.random()
+            if w < 0.35:
+                self.setter()
+            elif w < 0.6:
+                k = rng.choice([1, 2])
+                self.add("res", "res:%d" % k, "%s %d" % (t["res"], k), self.maybe_label())
+                self.pc[self.seg] = self.pc.get(self.seg, 0) + k
+            self.add("segment", "seg:%d" % back, "segment %s" % ALL_SEG_NAMES[back], None)
+            self.seg = back
+        else:
+            c = rng.choice([0, 1])
+            self.add("cpu", "cpu:%d" % c, "cpu %s" % TARGETS[c]["name"], None)
+            self.cpu = c
+            self.seg = 1
+        t = TARGETS[self.cpu]
+        pc, ex = self.approx()
+        k = rng.choice([1, 2, 3])
+        if max(pc, ex) + k > self.lim():
+            k = 1
+        tag = 1 + len(self.stmts) % 250
+        if rng.random() < 0.8:
+            self.add("emit", "emit:%d:%d" % (k, tag), "%s %s" % (t["emit"], ",".join([str(tag)] * k)), self.new_id())
+        else:
+            self.add("res", "res:%d" % k, "%s %d" % (t["res"], k), self.new_id())
+        self.pc[self.seg] = pc + k
+
     def one(self):
         rng = self.rng
         t = TARGETS[self.cpu]
@@ -82,6 +155,11 @@ class Gen:
         lab = self.maybe_label()
         lim = self.lim()
         pc, ex = self.approx()
+        if not ins and rng.random() < 0.04:
+            self.setter()
+            if self.off.get(self.seg, 0) == 0 or rng.random() < 0.5:
+                self.hop()
+            return
         if ins:
             # structure body: reservations, aligns, nested structures, end
             if r < 0.42:
@@ -236,6 +314,11 @@ class Gen:
             self.add("endstruct-without-struct", "endstruct", "endstruct", None)
 
     def build(self):
+        if self.nocpu and self.rng.random() < 0.6:
+            # the shape at the very start of a source without CPU statement
+            for _ in range(self.rng.choice([1, 1, 2])):
+                self.setter()
+            self.hop()
         while len(self.stmts) < self.n:
             self.one()
         # close what is open (mostly)
@@ -249,9 +332,168 @@ class Gen:
         return self
 
 
+class StructGen:
+    """structure-centred generator: programs that mostly consist of nested STRUCT/UNION definitions (depth <= 3; unions in
+    structures and structures in unions; named and nameless inner frames; fields by DS/RES and `DB ?`-style reservations,
+    labelled empty lines, ALIGN, forward ORG/RORG inside; SAVE/RESTORE around and - rarely - inside bodies) between a few
+    ordinary statements, so that the spec machine accepts nearly all of them to the end."""
+
+    def __init__(self, rng):
+        self.rng = rng
+        self.cpu = rng.choice([0, 1])
+        self.cpu0 = self.cpu
+        self.next_id = 1
+        self.stmts = []
+        self.kinds = {}
+        self.wild = False
+        self.dotted = rng.random() < 0.25
+        self.nocpu = rng.random() < 0.2
+        self.frames = []       # [named, isUnion, cur, maxlen]
+        self.stats = dict(max_depth=0, union_in_struct=0, struct_in_union=0, nameless=0, structures=0, fields=0)
+        self.pending_restore = 0
+
+    new_id = Gen.new_id
+    add = Gen.add
+
+    def reserve_src(self, k):
+        t = TARGETS[self.cpu]
+        if self.cpu == 0 and k <= 4 and self.rng.random() < 0.4:
+            return "db %s" % ",".join(["?"] * k)
+        return "%s %d" % (t["res"], k)
+
+    def advance(self, k):
+        f = self.frames[-1]
+        if f[1]:
+            f[3] = max(f[3], k)
+        else:
+            f[2] += k
+
+    def open(self, named, union):
+        nid = self.new_id() if named else None
+        if self.frames:
+            if union and not self.frames[-1][1]:
+                self.stats["union_in_struct"] += 1
+            if not union and self.frames[-1][1]:
+                self.stats["struct_in_union"] += 1
+        if not named:
+            self.stats["nameless"] += 1
+        self.stats["structures"] += 1
+        self.add("union" if union else "struct", "struct:%s:%s" % (nid if named else "-", "u" if union else "s"),
+                 "union" if union else "struct", None)
+        self.stmts[-1] = (self.stmts[-1][0], self.stmts[-1][1], nid, self.stmts[-1][3])
+        self.frames.append([nid, union, 0, 0])
+        self.stats["max_depth"] = max(self.stats["max_depth"], len(self.frames))
+
+    def close(self):
+        nid, union, cur, mx = self.frames.pop()
+        self.add("endstruct", "endstruct", "endunion" if union else "endstruct", None)
+        if nid is not None and self.rng.random() < 0.4:
+            self.stmts[-1] = (self.stmts[-1][0], self.stmts[-1][1], nid, self.stmts[-1][3])
+        if self.frames:
+            self.advance(mx if union else cur)
+
+    def body(self):
+        rng = self.rng
+        for _ in range(rng.randrange(1, 6)):
+            f = self.frames[-1]
+            r = rng.random()
+            lab = self.new_id() if rng.random() < 0.8 else None
+            if r < 0.45:
+                k = rng.choice([1, 1, 2, 2, 3, 4, 4, 6, 8, 16])
+                self.add("res", "res:%d" % k, self.reserve_src(k), lab)
+                self.advance(k)
+                if lab is not None:
+                    self.stats["fields"] += 1
+            elif r < 0.57:
+                n = rng.choice(ALIGN_POOL)
+                self.add("align", "align:%d:-" % n, "align %d" % n, lab)
+                self.advance((-f[2]) % n)
+            elif r < 0.82 and len(self.frames) < 3:
+                self.open(rng.random() < 0.7, rng.random() < 0.45)
+                self.body()
+                self.close()
+            elif r < 0.86 and not f[1]:
+                v = f[2] + rng.choice([0, 1, 2, 5])
+                self.add("org-in-struct", "org:%d" % v, "org %d" % v, lab)
+                f[2] = v
+            elif r < 0.90 and not f[1]:
+                d = rng.choice([1, 2, 3, 4])
+                self.add("rorg-in-struct", "rorg:%d" % d, "rorg %d" % d, lab)
+                f[2] += d
+            elif r < 0.94:
+                self.add("nop", "nop", "", self.new_id())
+            elif r < 0.96:
+                b = rng.random() < 0.5
+                self.add("listing", "listing:%d" % (1 if b else 0), "listing %s" % ("on" if b else "off"), None)
+            elif r < 0.98:
+                self.add("save-in-struct", "save", "save", None)
+                if rng.random() < 0.6:
+                    self.add("restore-in-struct", "restore", "restore", None)
+                else:
+                    self.pending_restore += 1
+            else:
+                k = rng.choice([1, 2])
+                self.add("res", "res:%d" % k, self.reserve_src(k), None)
+                self.advance(k)
+
+    def outside(self):
+        rng = self.rng
+        t = TARGETS[self.cpu]
+        r = rng.random()
+        lab = self.new_id() if rng.random() < 0.5 else None
+        tag = 1 + len(self.stmts) % 250
+        if r < 0.4:
+            k = rng.choice([1, 2, 3])
+            self.add("emit", "emit:%d:%d" % (k, tag), "%s %s" % (t["emit"], ",".join([str(tag)] * k)), lab)
+        elif r < 0.6:
+            k = rng.choice([1, 2, 4])
+            self.add("res", "res:%d" % k, "%s %d" % (t["res"], k), lab)
+        elif r < 0.8:
+            v = rng.choice([16, 64, 100, 128])
+            self.add("org", "org:%d" % v, "org %d" % v, lab)
+        else:
+            n = rng.choice([2, 4, 8])
+            self.add("align", "align:%d:-" % n, "align %d" % n, lab)
+
+    def build(self):
+        rng = self.rng
+        for _ in range(rng.randrange(0, 3)):
+            self.outside()
+        phased = rng.random() < 0.25
+        if phased:
+            v = rng.choice([32, 64, 200])
+            self.add("phase", "phase:%d" % v, "phase %d" % v, None)
+        for _ in range(rng.randrange(1, 4)):
+            around = rng.random() < 0.3
+            if around:
+                self.add("save", "save", "save", None)
+                if rng.random() < 0.4:
+                    self.add("listing", "listing:0", "listing off", None)
+            self.open(True, rng.random() < 0.3)
+            self.body()
+            self.close()
+            while self.pending_restore:
+                self.pending_restore -= 1
+                self.add("restore", "restore", "restore", None)
+            if around:
+                self.add("restore", "restore", "restore", None)
+            for _ in range(rng.randrange(0, 3)):
+                self.outside()
+        if phased:
+            self.add("dephase", "dephase", "dephase", None)
+        self.outside()
+        return self
+
+
 def render(g, plan):
     """source text + map line number -> (statement index, 's'|'m')"""
-    lines = ["\tcpu %s" % TARGETS[g.cpu0]["name"], "\toutradix 10"]
+    # without a leading CPU statement (target from `asl -cpu`) OUTRADIX is the first statement: WriteCode marks the initial CODE
+    # segment as used there, which is the state `Model/Addr.init` describes (theorem C10_init_cmdline)
+    lines = (["\toutradix 10"] if getattr(g, "nocpu", False) else ["\tcpu %s" % TARGETS[g.cpu0]["name"], "\toutradix 10"])
+    sep = "_"
+    if getattr(g, "dotted", False):
+        lines.append("\tdottedstructs on")
+        sep = "."
     # every other program needs a second pass (forward reference without code): per-pass re-initialisation of
     # counters / phase offsets / stacks is then observable, the values compared are those of the last pass
     two_pass = (len(g.stmts) % 2 == 1)
@@ -267,7 +509,7 @@ def render(g, plan):
         lines.append("%s\t%s" % (left, src))
         lmap[len(lines)] = (i, "s")
         syms = [] if plan[i] == "-" else plan[i].split(",")
-        vals = ";".join("\\{%s}" % sym_name(s) for s in syms) or "-"
+        vals = ";".join("\\{%s}" % sym_name(s, sep) for s in syms) or "-"
         lines.append("\tmessage \"@%d \\{$} \\{MOMCPU} \\{LISTON} \\{MOMSEGMENT} %s\"" % (i, vals))
         lmap[len(lines)] = (i, "m")
     if two_pass:
@@ -279,11 +521,12 @@ MSG_RE = re.compile(r"^@(\d+) (\d+) (\d+) (\d+) (\S+) (\S+)\s*$")
 ERR_RE = re.compile(r"^> > > ([^:(]+)(?:\((\d+)\))?(?::\d+)?: (error|fatal error) #(\d+)")
 
 
-def observe(bdir, wd, idx, src, lmap, n):
+def observe(bdir, wd, idx, src, lmap, n, cpuopt=None):
     f = os.path.join(wd, "q%d.asm" % idx)
     pf = os.path.join(wd, "q%d.p" % idx)
     open(f, "w").write(src)
-    rc, so, se = common.run_tool(bdir, "asl", ["-q", "-n", f, "-o", pf], wd, timeout=20, env={"ASL_VERIF_MAX_PASSES": "8"})
+    opts = ["-cpu", cpuopt] if cpuopt else []
+    rc, so, se = common.run_tool(bdir, "asl", ["-q", "-n"] + opts + [f, "-o", pf], wd, timeout=20, env={"ASL_VERIF_MAX_PASSES": "8"})
     sig = -rc if isinstance(rc, int) and rc < 0 else (99 if rc in ("timeout", 97) else 0)
     obs = {}
     for line in so.decode(errors="replace").split("\n"):
@@ -352,6 +595,25 @@ FIXED = [
                            ("-:restore", "restore"), ("-:res:1", "ds 1")]),
     ("dephase-empty", 0, [("-:org:256", "org 256"), ("-:dephase", "dephase"), ("3:emit:2:5", "db 5,5"), ("-:seg:2", "segment data"),
                           ("-:phase:128", "phase 128"), ("-:seg:1", "segment code"), ("4:emit:1:6", "db 6")]),
+    # sources without CPU statement (`asl -cpu`): a counter set by ORG/RORG/ALIGN/PHASE with nothing placed yet must survive
+    # SEGMENT <other> … SEGMENT <back> and the first CPU statement (SetNSeg consults PCsUsed[])
+    ("nocpu-org-segment-hop", 0, [("-:org:4096", "org 4096"), ("-:seg:2", "segment data"), ("-:org:64", "org 64"), ("1:res:2", "ds 2"),
+                                  ("-:seg:1", "segment code"), ("2:emit:1:165", "db 165"), ("3:emit:2:7", "db 7,7")]),
+    ("nocpu-org-cpu", 1, [("-:org:4096", "org 4096"), ("-:cpu:0", "cpu 8051"), ("1:emit:1:165", "db 165")]),
+    ("nocpu-rorg-align-hop", 1, [("-:rorg:5", "rorg 5"), ("-:align:4:-", "align 4"), ("-:seg:2", "segment data"), ("-:seg:1", "segment code"),
+                                 ("1:emit:1:9", "word 9")]),
+    ("nocpu-phase-hop", 0, [("-:org:256", "org 256"), ("-:phase:1024", "phase 1024"), ("-:seg:4", "segment xdata"), ("-:seg:1", "segment code"),
+                            ("1:emit:1:3", "db 3"), ("-:dephase", "dephase"), ("2:emit:1:4", "db 4")]),
+    ("cpu-org-segment-hop", 0, [("-:org:512", "org 512"), ("-:seg:3", "segment idata"), ("-:org:144", "org 144"), ("-:seg:1", "segment code"),
+                                ("-:seg:3", "segment idata"), ("1:res:1", "ds 1"), ("-:seg:1", "segment code"), ("2:emit:1:8", "db 8")]),
+    # finding struct-length-wraps-at-2^31: TotLen/CodeLen are 32-bit LongInts
+    ("struct-longer-than-2^31", 0, [("1:struct:1:s", "struct"), ("2:res:1073741824", "ds 40000000h"), ("3:res:1073741824", "ds 40000000h"),
+                                    ("4:res:1", "ds 1"), ("-:endstruct", "endstruct"), ("5:emit:1:1", "db 1")]),
+    ("nested3", 0, [("-:save", "save"), ("1:struct:1:s", "struct"), ("2:res:2", "db ?,?"), ("3:struct:3:u", "union"), ("4:res:4", "ds 4"),
+                    ("-:struct:-:s", "struct"), ("5:res:1", "ds 1"), ("6:res:2", "ds 2"), ("-:endstruct", "endstruct"), ("7:nop", ""),
+                    ("-:endstruct", "endunion"), ("-:align:4:-", "align 4"), ("-:struct:-:u", "union"), ("8:struct:8:s", "struct"),
+                    ("9:res:5", "ds 5"), ("-:endstruct", "endstruct"), ("10:res:3", "ds 3"), ("-:endstruct", "endunion"),
+                    ("11:res:1", "ds 1"), ("-:endstruct", "endstruct"), ("-:restore", "restore"), ("12:emit:1:7", "db 7")]),
     ("nested", 1, [("1:struct:1:s", "struct"), ("2:res:2", "res 2"), ("3:struct:3:u", "union"), ("4:res:4", "res 4"), ("5:res:2", "res 2"),
                    ("-:endstruct", "endunion"), ("-:struct:-:s", "struct"), ("6:res:3", "res 3"), ("-:endstruct", "endstruct"),
                    ("7:res:1", "res 1"), ("-:endstruct", "endstruct"), ("8:emit:2:9", "word 9,9")]),
@@ -365,6 +627,7 @@ class FixedProg:
         self.stmts = []
         self.kinds = {"fixed:" + name: 1}
         self.wild = False
+        self.nocpu = name.startswith("nocpu")
         for tok, src in items:
             lab = tok.split(":")[0]
             self.stmts.append((tok, src, None if lab == "-" else int(lab), "fixed"))
@@ -381,7 +644,11 @@ def run(args):
     spec_fail, corr_fail, samples = [], [], []
     dist = {}
     agg = dict(programs=0, statements=0, spec_checked_statements=0, with_errors=0, crashed=0, code_files_compared=0,
-               spec_cells_compared=0, spec_stop={}, wild=0)
+               spec_cells_compared=0, spec_stop={}, wild=0, without_cpu_statement=0, counter_set_then_segment_or_cpu_hop=0)
+    # structure bodies: what the generators reached and how many field / length symbols were read back and compared
+    sagg = dict(struct_centred_programs=0, dotted_programs=0, max_depth_histogram={}, union_in_struct=0, struct_in_union=0, nameless_frames=0,
+                structures=0, field_symbols_compared_with_model=0, length_symbols_compared_with_model=0,
+                field_symbols_checked_by_spec=0, length_symbols_checked_by_spec=0, by_target={})
     distinct = set()
     with common.Workdir("c10") as wd:
         org_load, probe_val, align_zero_err = probe_org(bdir, wd)
@@ -394,6 +661,9 @@ def run(args):
                     d = json.load(open(os.path.join(cdir, fn)))
                     progs.append(FixedProg("corpus-" + fn[:-5], d["cpu0"], [tuple(x) for x in d["items"]]))
         for i in range(n_prog):
+            if i % 5 == 4:
+                progs.append(StructGen(rng).build())
+                continue
             nmax = 62 if i % 4 else 24
             progs.append(Gen(rng, nmax).build())
         if not ok:
@@ -408,11 +678,11 @@ def run(args):
             n = len(g.stmts)
             plan = plan + ["-"] * (n - len(plan))      # after a predicted crash nothing is planned
             src, lmap = render(g, plan)
-            toks, tail, info = observe(bdir, wd, idx, src, lmap, n)
+            toks, tail, info = observe(bdir, wd, idx, src, lmap, n, TARGETS[g.cpu0]["name"] if getattr(g, "nocpu", False) else None)
             reqs.append("%s %d %d %s %s %s" % (ol, g.cpu0, n, " ".join(s[0] for s in g.stmts), " ".join(toks), tail))
-            metas.append((g, src, info))
+            metas.append((g, src, info, plan))
         answers = common.driver("c10", reqs, timeout=3600) if reqs else []
-        for (g, src, info), req, ans in zip(metas, reqs, answers):
+        for (g, src, info, plan), req, ans in zip(metas, reqs, answers):
             kv = dict(x.split("=", 1) for x in ans.split() if "=" in x)
             tag = ",".join(sorted(g.kinds))[:200]
             agg["programs"] += 1
@@ -421,6 +691,9 @@ def run(args):
                 dist[k] = dist.get(k, 0) + v
             if getattr(g, "wild", False):
                 agg["wild"] += 1
+            if getattr(g, "nocpu", False):
+                agg["without_cpu_statement"] += 1
+            agg["counter_set_then_segment_or_cpu_hop"] += getattr(g, "hops", 0)
             if ans == "bad-request" or "model" not in kv:
                 proof_problems.append("driver: bad request for " + req[:200])
                 continue
@@ -429,6 +702,28 @@ def run(args):
             agg["spec_stop"][stop] = agg["spec_stop"].get(stop, 0) + 1
             if kv.get("crash") == "1":
                 agg["crashed"] += 1
+            # symbols defined inside structure bodies (non-empty path): every one was read back through MESSAGE
+            nchk = int(kv.get("checked", 0))
+            for i, pl in enumerate(plan):
+                for tok_ in ([] if pl == "-" else pl.split(",")):
+                    if tok_.startswith("/"):
+                        continue
+                    kind_ = "length" if tok_.endswith("/LEN") else "field"
+                    if kv.get("model") == "eq":
+                        sagg["%s_symbols_compared_with_model" % kind_] += 1
+                        tn = TARGETS[g.cpu0]["name"]
+                        sagg["by_target"][tn] = sagg["by_target"].get(tn, 0) + 1
+                    if i < nchk and kv.get("spec") == "ok":
+                        sagg["%s_symbols_checked_by_spec" % kind_] += 1
+            if hasattr(g, "stats"):
+                sagg["struct_centred_programs"] += 1
+                sagg["dotted_programs"] += 1 if g.dotted else 0
+                dkey = str(g.stats["max_depth"])
+                sagg["max_depth_histogram"][dkey] = sagg["max_depth_histogram"].get(dkey, 0) + 1
+                sagg["union_in_struct"] += g.stats["union_in_struct"]
+                sagg["struct_in_union"] += g.stats["struct_in_union"]
+                sagg["nameless_frames"] += g.stats["nameless"]
+                sagg["structures"] += g.stats["structures"]
             if int(kv.get("nerr", 0)) > 0:
                 agg["with_errors"] += 1
             if kv.get("pfile") == "eq" and int(kv.get("nerr", 0)) == 0:
@@ -453,13 +748,17 @@ def run(args):
     res.coverage = common.proof_coverage(audit, "C10", [
         "translate/tables.py gen_segparams (segment parameters of SwitchTo_51/SwitchTo_3202x via clang AST, widths/error numbers via compiled dumper)",
         "correspondence: real asl vs Model/Addr.lean on generated programs (differential test); ORG flavour self-calibrated by a probe",
+        "symbol naming (separator `_` / `.` of BuildStructName) is part of the harness (sym_name), not of the Lean model: the model identifies a symbol by the list of enclosing named structures",
         "Spec/AddrSpec.lean: my reading of doc/pseudo-instructions.md"])
     res.coverage.update(
         evaluations=agg["programs"], distinct_nontrivial=len(distinct),
         rule="random interleavings (6..61 statements) of ORG/RORG/ALIGN[,fill]/DS/DB/SEGMENT/CPU/PHASE/DEPHASE/SAVE/RESTORE/LISTING/STRUCT/UNION/ENDSTRUCT with labels on "
              "8051 (byte granular, 5 segments) and 320C25 (word granular, 3 segments); after every statement $, MOMCPU, LISTON, MOMSEGMENT and the symbols it defines "
-             "are read back; non-trivial = at least 8 statements of at least 4 different kinds; distinct by statement list",
-        samples=samples, distribution=dict(statement_kinds=dist, **agg), org_flavour_probe=dict(org_is_load_address=org_load, dollar=probe_val, align_zero_error_number=align_zero_err))
+             "are read back; 30% of the sources have no CPU statement (target from `asl -cpu`), counter-setting statements (ORG/RORG/ALIGN/PHASE) are followed "
+             "directly by SEGMENT <other> … SEGMENT <back> or CPU and then labelled code (at the very start of such sources and inside programs); every 5th program is structure-centred (nested STRUCT/UNION up to depth 3, named and nameless, DS/RES/`DB ?` fields, ALIGN/ORG/RORG "
+             "inside, SAVE/RESTORE around and inside, a quarter of them under DOTTEDSTRUCTS ON); non-trivial = at least 8 statements of at least 4 different kinds; "
+             "distinct by statement list",
+        samples=samples, distribution=dict(statement_kinds=dist, structure_bodies=sagg, **agg), org_flavour_probe=dict(org_is_load_address=org_load, dollar=probe_val, align_zero_error_number=align_zero_err))
     res.assumptions = ["segment sizes/initial values of the spec are the ORG table of the manual (MCS-51, 320C2x); the initial value 30h of the MCS-51 DATA segment is taken from the implementation (the table lists none)",
                        "MESSAGE lines inserted after every statement do not change the counters (they are statements with CodeLen = 0)"]
     return common.conclude(res, proof_problems, spec_fail, corr_fail, agg["programs"])
